@@ -9,5 +9,7 @@ ThFrag == [thFragNum |-> 1, thFragDen |-> 2, thDead |-> Big, thSmall |-> 0]
 ThDead == [thFragNum |-> 1, thFragDen |-> 1, thDead |-> 20, thSmall |-> 0]
 Mk(mf, sy, th) == [maxFile |-> mf, sync |-> sy] @@ th
 MCConfigsFault == {Mk(mf, sy, th) : mf \in {0, 60, Big}, sy \in {"none", "always"}, th \in {ThAll, ThFrag, ThDead}}
+MCConfigsFaultSync == {Mk(mf, "always", th) : mf \in {0, 60, Big}, th \in {ThAll, ThFrag, ThDead}}
+MCConfigsFaultSync0 == {Mk(0, "always", th) : th \in {ThAll, ThFrag, ThDead}}
 OpsBound == nops <= MaxOps
 ==============================================================================
